@@ -22,11 +22,11 @@ type decision struct {
 }
 
 type c07case struct {
-	First    string     `json:"first"` // A, B, AB
-	Backoff  int        `json:"backoff_ms"`
-	Prefix   []decision `json:"prefix"`
-	Restart  int        `json:"restart"` // -1 none, otherwise restart B before prefix step i (len(prefix) = after the prefix)
-	Direct   bool       `json:"direct"`  // deliver synchronously (deterministic) instead of via the inbox
+	First   string     `json:"first"` // A, B, AB
+	Backoff int        `json:"backoff_ms"`
+	Prefix  []decision `json:"prefix"`
+	Restart int        `json:"restart"` // -1 none, otherwise restart B before prefix step i (len(prefix) = after the prefix)
+	Direct  bool       `json:"direct"`  // deliver synchronously (deterministic) instead of via the inbox
 }
 
 func (c c07case) String() string {
@@ -38,12 +38,12 @@ func (c c07case) String() string {
 }
 
 type c07result struct {
-	problem     string
-	heldAfter   int
-	trace       []string
-	faults      int
-	overtaking  bool
-	converge    time.Duration
+	problem    string
+	heldAfter  int
+	trace      []string
+	faults     int
+	overtaking bool
+	converge   time.Duration
 	// knownKey is set when the case is an instance of a listed known finding class
 	knownKey string
 }
@@ -86,7 +86,8 @@ func runC07(c c07case) (res c07result) {
 	if threshold < 2*time.Second {
 		threshold = 2 * time.Second
 	}
-	cfg := chanCfg{backoff: backoff, keepAlive: time.Minute, rekey: time.Hour, reject: 10 * threshold}
+	// reject-after lies beyond the longest (patient) wait, so that an expiring session cannot rescue a stuck handshake
+	cfg := chanCfg{backoff: backoff, keepAlive: time.Minute, rekey: time.Hour, reject: 2 * ev.Extended(threshold)}
 	nt := newNet()
 	defer nt.close()
 	nt.hold = true
@@ -234,13 +235,13 @@ func runC07(c c07case) (res c07result) {
 		if p.n.ch != a.ch && p.n.ch != b.ch {
 			continue // a Send on the instance that was shut down; not required to finish
 		}
-		select {
-		case err := <-p.done:
-			if err != nil {
-				res.problem = fmt.Sprintf("pending Send on %s failed after the network became reliable: %v", p.n.name, err)
-				return res
-			}
-		case <-time.After(threshold):
+		// patient limit: `threshold` on a responsive machine, longer if the machine stalled meanwhile
+		err, returned := ev.PatientRecv(threshold, p.done)
+		if returned && err != nil {
+			res.problem = fmt.Sprintf("pending Send on %s failed after the network became reliable: %v", p.n.name, err)
+			return res
+		}
+		if !returned {
 			res.problem = fmt.Sprintf("pending Send on %s still blocked %v after the network became reliable (handshake backoff %v, reject-after %v)", p.n.name, threshold, backoff, cfg.reject)
 			return res
 		}
@@ -250,8 +251,12 @@ func runC07(c c07case) (res c07result) {
 	for _, pair := range [][2]*node{{a, b}, {b, a}} {
 		from, to := pair[0], pair[1]
 		ok := false
-		deadline := time.Now().Add(threshold)
-		for try := 0; time.Now().Before(deadline) && !ok; try++ {
+		flowStart := time.Now()
+		inTime := func() bool {
+			el := time.Since(flowStart)
+			return el < threshold || (ev.Stalled(flowStart) && el < ev.Extended(threshold))
+		}
+		for try := 0; inTime() && !ok; try++ {
 			tag := fmt.Sprintf("flow%d", try)
 			if err := from.send(tag, threshold); err != nil {
 				res.problem = fmt.Sprintf("after convergence Send on %s failed: %v", from.name, err)
@@ -434,6 +439,7 @@ func TestC07RekeyFlow(t *testing.T) {
 		if first == "B" {
 			x, y = b, a
 		}
+		caseStart := time.Now()
 		if err := x.send("m0", 2*time.Second); err != nil {
 			fail("initial Send failed: %v", err)
 		}
@@ -457,6 +463,12 @@ func TestC07RekeyFlow(t *testing.T) {
 			for _, pr := range [][2]*node{{x, y}, {y, x}} {
 				pt := fmt.Sprintf("%s|%s|0123456789abcdef", pr[0].name, tag)
 				if c := pr[1].countGot(pt); c != 1 {
+					if c == 0 && ev.MaxLagSince(caseStart) > time.Duration(rekeyMs)*time.Millisecond/2 {
+						// a ciphertext that is held up for about two rekey intervals between Send and Deliver
+						// outlives the sessions its receiver keeps: on a stalled machine a loss is legitimate
+						ev.Class(sub, "not-judged:machine-stalled-for-half-a-rekey-interval")
+						return
+					}
 					fail("message %s from %s was delivered %d times on a loss-free wire (%d messages each way)", tag, pr[0].name, c, n)
 				}
 			}
